@@ -22,7 +22,8 @@ EXPLANATION = (
     ' (R5) a failing content write / file fsync / writer close / rename leaves the publisher as an exception (handlers on the way re-raise).'
     ' (R6) _get_arrow_filesystem returns a filesystem object only for the S3 backend, so local data files always take the temp + fsync + rename branch.'
     ' (R9) storage effects are synchronous: nothing handed to an executor / thread / timer writes or deletes through the storage layer (function values followed).'
-    ' (R10) every os.open feeding an fsync carries no O_PATH / write flags; R1 / R4 / R5 accept a buffered temp file (os.fdopen) only with a flush() between the write and the fsync.')
+    ' (R10) every os.open feeding an fsync carries no O_PATH / write flags; R1 / R4 / R5 accept a buffered temp file (os.fdopen) only with a flush() between the write and the fsync.'
+    ' R2: the directory that is fsynced is dirname(renamed path), taken once. (R11) the byte count os.write returns is consumed - a short write is completed or refused, never published [D22, fixed].')
 NOT_DECIDED = "replay of the syscall trace in a power-loss model; filesystem semantics of fsync/rename"
 
 
